@@ -276,9 +276,11 @@ func (a *origAnalysis) fieldsOfAlloc(env *oenv, al *ssa.Alloc, d int, use ssa.In
 		return out
 	}
 	whole := 0
+	var wholeStores []*ssa.Store
 	for _, ref := range referrers(al) {
 		if s, isSt := ref.(*ssa.Store); isSt && s.Addr == ssa.Value(al) {
 			whole++
+			wholeStores = append(wholeStores, s)
 			src := a.fieldsOf(env, s.Val, d+1)
 			for i := 0; i < st.NumFields(); i++ {
 				f := st.Field(i).Name()
@@ -297,6 +299,8 @@ func (a *origAnalysis) fieldsOfAlloc(env *oenv, al *ssa.Alloc, d int, use ssa.In
 	}
 	direct := map[string][]osym{}
 	allPaths := map[string]bool{}
+	afterWhole := map[string]bool{} // a field store that dominates the use and follows every whole-struct store
+	elemSpill := false
 	for _, ref := range referrers(al) {
 		fa, ok := ref.(*ssa.FieldAddr)
 		if !ok {
@@ -313,12 +317,21 @@ func (a *origAnalysis) fieldsOfAlloc(env *oenv, al *ssa.Alloc, d int, use ssa.In
 				}
 				if use != nil && s.Parent() == use.Parent() && instrDominates(s, use) {
 					allPaths[f] = true
+					ok := true
+					for _, ws := range wholeStores {
+						if !instrDominates(ws, s) {
+							ok = false
+						}
+					}
+					if ok {
+						afterWhole[f] = true
+					}
 				}
 			}
 		}
 	}
 	for f, ss := range direct {
-		if allPaths[f] && whole == 0 {
+		if (allPaths[f] && whole == 0 && !elemSpill) || afterWhole[f] {
 			out[f] = ss
 		} else {
 			out[f] = append(out[f], ss...)
@@ -352,9 +365,6 @@ func (a *origAnalysis) fieldsOf(env *oenv, v ssa.Value, d int) map[string][]osym
 	case *ssa.UnOp:
 		if x.Op == token.MUL {
 			if al, ok := x.X.(*ssa.Alloc); ok {
-				if a.isElemSpill(env, al) {
-					return all(func(f string) osym { return osym{Kind: "elemfield", Field: f} })
-				}
 				return a.fieldsOfAlloc(env, al, d+1, x)
 			}
 		}
